@@ -123,7 +123,8 @@ Print Assumptions C10_concat_logical_blank.
 (*   op_modelled o v  decidable: v is inside the model of operator o     *)
 (*       comparisons: text whose case mapping is modelled (cmp_modelled) *)
 (*       &:           integral float, or float_repr defined              *)
-(*       arithmetic:  text is ASCII and float() of it is not Unmodelled  *)
+(*       arithmetic:  text is ASCII and a TRUE/FALSE/#EMPTY! spelling or *)
+(*                    float() of it is not Unmodelled (inf/nan, |exp|>300)*)
 (*   result_ok o v    comparisons: a logical; &: text; + - * / unary     *)
 (*                    minus: VInt, VFloat, #VALUE! or #DIV/0!            *)
 (*   arith_result v   VInt, VFloat, #VALUE!, #DIV/0! or #NUM! (for ^)    *)
@@ -150,23 +151,14 @@ Theorem C10_closed : forall l o r, scalar l -> scalar r -> o <> Pow ->
 Proof. exact closed. Qed.
 Print Assumptions C10_closed.
 
-(* the hypothesis is exact for comparisons and &: outside it the model answers
-   Unmodelled (and only that) *)
+(* the hypothesis is exact, for all 13 operators: outside it the model answers
+   Unmodelled and nothing else (for ^ see the further restriction below) *)
 Theorem C10_unmodelled_exact : forall l o r, scalar l -> scalar r ->
   in_error_codes l = Ok false -> in_error_codes r = Ok false ->
-  is_cmp o = true \/ o = BitAnd ->
   op_modelled o l = false \/ op_modelled o r = false ->
   fixup l o r = Raise Unmodelled.
 Proof. exact unmodelled_exact. Qed.
 Print Assumptions C10_unmodelled_exact.
-
-(* arithmetic on a text with a non-ASCII character is outside the model *)
-Theorem C10_arith_non_ascii_unmodelled : forall s o r, arith_op o = true -> non_ascii s = true ->
-  scalar r -> in_error_codes r = Ok false ->
-  fixup (VStr s) o r = Raise Unmodelled
-  /\ (arith_modelled r = true -> fixup r o (VStr s) = Raise Unmodelled).
-Proof. exact arith_non_ascii. Qed.
-Print Assumptions C10_arith_non_ascii_unmodelled.
 
 (* ^ : total exactly on pow_modelled operands (l1, r1 = the coerced operands);
    PARTIAL with respect to the property: a non-integral exponent with a
